@@ -207,7 +207,9 @@ def precondition(fn, args):
         return False
     if n == "mpq_set_den" and zin[-1] == 0:
         return False
-    if n in ("mpz_pow_ui", "mpf_pow_ui") and abs(zin[0]).bit_length() * sc[-1] > 50000:
+    if n == "mpz_pow_ui" and abs(zin[0]).bit_length() * sc[-1] > 50000:
+        return False
+    if n == "mpf_pow_ui" and (abs(zin[0].numerator).bit_length() + zin[0].denominator.bit_length()) * sc[-1] > 50000:
         return False
     if n in ("mpz_next_prime_candidate",):
         return False
